@@ -335,7 +335,9 @@ pub fn build_response(spec: &RespSpec, q: &ReqSeen, s: u16, sloppy: bool) -> Res
     let ad = spec.ad && (q.ad || q.dok || sloppy);
     let mut recs: Vec<Rec> = vec![];
     let mut rcode: u16 = 0;
-    let mut ext: u32 = 0;
+    // extended rcode: upper 8 bits travel in the OPT TTL, the header keeps
+    // the low nibble of whatever the message shape dictates
+    let mut ext: u32 = if q.has_opt { spec.ext_hi as u32 } else { 0 };
     let push_sig = |recs: &mut Vec<Rec>, sec: usize, owner: &Vec<Vec<u8>>, covered: u16, orig: u32, i: u8| {
         if dnssec {
             recs.push(Rec { sec, owner: owner.clone(), rtype: T_RRSIG, ttl: spec.ttl_sig, rdata: rrsig_rdata(covered, orig, s, i, &zone) });
